@@ -11,6 +11,7 @@ import KVerif.Drv.C18
 import KVerif.Drv.C07
 import KVerif.Drv.C01
 import KVerif.Drv.C12
+import KVerif.Drv.C16
 open KVerif.Drv
 
 /-- kvdrv <prop>: one case line in, one `M <model> ## S <spec>` line out. -/
@@ -34,6 +35,7 @@ def dispatch (prop : String) : Option (String → String × String) :=
   | "C18o" => some C18.runOracle
   | "LALL" => some (Lay.run "LAY")
   | "C12" => some C12.run
+  | "C16" => some C16.run
   | _ => none
 
 partial def loop (h : IO.FS.Stream) (out : IO.FS.Stream) (f : String → String × String) : IO Unit := do
